@@ -278,10 +278,12 @@ class FakeSnowflakeCursor:
         if set_database := transformed.args.get("set_database"):
             self._conn.database = set_database
             self._conn.database_set = True
+            result_sql = SQL_SUCCESS
 
         elif set_schema := transformed.args.get("set_schema"):
             self._conn.schema = set_schema
             self._conn.schema_set = True
+            result_sql = SQL_SUCCESS
 
         elif create_db_name := transformed.args.get("create_db_name"):
             # we created a new database, so create the info schema extensions
@@ -299,6 +301,10 @@ class FakeSnowflakeCursor:
         elif cmd == "DELETE":
             (affected_count,) = self._duck_conn.fetchall()[0]
             result_sql = SQL_DELETED_ROWS.substitute(count=affected_count)
+
+        elif cmd in ("TRANSACTION", "COMMIT", "ROLLBACK"):
+            # BEGIN / COMMIT / ROLLBACK have no result set in duckdb, snowflake answers with the status row
+            result_sql = SQL_SUCCESS
 
         elif cmd == "TRUNCATETABLE":
             # snowflake returns a status row, not duckdb's count of removed rows
